@@ -162,7 +162,8 @@ def rule_R4(chk, repo, rid='C07.R4'):
         recs = creation_records(init.node, fams)
         facts = rg.h_facts() + [Affine.sym('L') - Affine.const(lmin)]
         for mname in ('generate_graph', 'copy_nids'):
-            fi = canonical(ci.methods[mname], CLASS_L_ROLES)
+            from ..normal import wrap, dictcomp_to_loops
+            fi = wrap(canonical(ci.methods[mname], CLASS_L_ROLES), dictcomp_to_loops)
             for fam, ukeys, uctx, node in family_uses(fi.node, fams, depth):
                 ok, detail = False, 'family has no creation record'
                 for rec in recs.get(fam, []):
